@@ -16,6 +16,7 @@
 import Aqv.Lemmas.Translated.Basic
 import Aqv.Lemmas.Translated.Vm
 import Aqv.Lemmas.Translated.VmNat
+import Aqv.Lemmas.Translated.VmPre
 import Aqv.Lemmas.Translated.Rlp
 import Aqv.Lemmas.Translated.Rpc
 import Aqv.Lemmas.Translated.Tx
